@@ -20,8 +20,8 @@ import (
 
 func init() {
 	register(&Property{
-		ID:    "C01",
-		Level: "other",
+		ID:      "C01",
+		Level:   "other",
 		Explain: "The statement as a whole (no index/nil panic for any bytes; a wall-clock bound) is not statically provable here: about 350 bounds checks are left unproven even by the compiler. Decided are structural necessary conditions, each of which, when broken, gives an input that crashes, hangs or returns an error: (L) no loop reachable from Convert has a 'stuck' cycle — a cycle header→header along which every loop-carried value keeps its value, no store and no impure call happens, so the exit tests can never change; (A) every inline parser that returns a node has moved the reader on that path (parseBlock re-peeks the same position otherwise: hang and unbounded growth); (U) no countdown loop whose test admits -1 uses its index afterwards without a sign test; (P) the explicit panics reachable from Convert are exactly the reviewed inventory; (K) every registered render function's unconditional node type assertion agrees with the kind it is registered for; (T) no code reachable from Parse asserts a single dynamic type, without the comma-ok form, on a value looked up from a node's attributes — attribute values written in the source are []byte, float64, bool, nil or lists, and the attribute renderer itself dispatches on the dynamic type; (D) the renderer's dispatch tolerates kinds without a function (= C20-D); (E) render functions return a nil error, Render returns only the walk's or Flush's error, Convert returns Render's (= C14-F/W/N). Not decided: index-out-of-range and nil dereference in general, recursion depth on deep nesting, cycles that change something but not enough, the time bound.",
 		Trusted: []string{"purity table for stdlib callees used in loop conditions", "VTA call graph with pass-site refinement (DESIGN 2.2)"},
 		Assumes: []string{"the destination writer does not fail (statement)", "user-supplied extensions out of scope"},
